@@ -122,7 +122,7 @@ type vLinkSpec struct {
 	link      [2][2]bool // link[e][d]
 }
 
-var vDeptIds = []string{"x", "y"}
+var vDeptIds = []string{"x", "xy"}
 
 func (env *vEnv) checkLinks(sp *vLinkSpec, label string) {
 	env.view(func(tx *bbolt.Tx) {
